@@ -67,7 +67,10 @@ func DigestPE(r io.Reader, hash crypto.Hash, doPageHash bool) (*PEDigest, error)
 	if err != nil {
 		return nil, err
 	}
-	digester := setupDigester(hash, buf.Bytes(), hvals, sections, doPageHash)
+	digester, err := setupDigester(hash, buf.Bytes(), hvals, sections, doPageHash)
+	if err != nil {
+		return nil, err
+	}
 	// Hash gap between header and first section if it exists
 	nextSection := hvals.sizeOfHdr
 	if len(sections) > 0 && int64(sections[0].PointerToRawData) > hvals.sizeOfHdr {
@@ -118,29 +121,40 @@ type imageHasher struct {
 	lastPage    uint32
 }
 
-func setupDigester(hash crypto.Hash, header []byte, hvals *peHeaderValues, sections []pe.SectionHeader32, doPageHash bool) *imageHasher {
+// upper limit for the space set aside for page hashes before any section has been read
+const maxPageHashPrealloc = 1 << 20
+
+func setupDigester(hash crypto.Hash, header []byte, hvals *peHeaderValues, sections []pe.SectionHeader32, doPageHash bool) (*imageHasher, error) {
 	imageDigest := hash.New()
 	imageDigest.Write(header)
 	h := &imageHasher{hashFunc: hash, imageDigest: imageDigest, doPageHash: doPageHash}
 	if doPageHash {
-		h.zeroPage = make([]byte, hvals.pageSize) // full page of zeroes, for padding
-		h.pageBuf = make([]byte, hvals.pageSize)  // scratch space
-		// make space for all the page hashes
-		pages := 2
-		for _, sh := range sections {
-			spage := (sh.SizeOfRawData + hvals.pageSize - 1) / hvals.pageSize
-			pages += int(spage)
-		}
-		h.pageHashes = make([]byte, 0, pages*(4+hash.Size()))
 		// the first page is the headers padded out to a full page with the
 		// signature bits snipped out in the same way as for the regular
 		// imprint. the padding is done based on the full size of the
 		// header, so the data being hashed is 12 bytes short of a full
 		// page
 		removed := int(hvals.sizeOfHdr) - len(header)
+		if removed < 0 || hvals.sizeOfHdr > int64(hvals.pageSize) {
+			return nil, errors.New("PE headers do not fit into the first page")
+		}
+		h.zeroPage = make([]byte, hvals.pageSize) // full page of zeroes, for padding
+		h.pageBuf = make([]byte, hvals.pageSize)  // scratch space
+		// make space for the page hashes; the section table is not to be
+		// trusted for more than a modest amount
+		pages := 2
+		for _, sh := range sections {
+			spage := (sh.SizeOfRawData + hvals.pageSize - 1) / hvals.pageSize
+			pages += int(spage)
+		}
+		prealloc := pages * (4 + hash.Size())
+		if prealloc > maxPageHashPrealloc {
+			prealloc = maxPageHashPrealloc
+		}
+		h.pageHashes = make([]byte, 0, prealloc)
 		h.addPageHash(0, header, removed)
 	}
-	return h
+	return h, nil
 }
 
 func (h *imageHasher) section(r io.Reader, sh pe.SectionHeader32) error {
